@@ -62,6 +62,15 @@ def run(ctx):
     if not okb:
         C.violation(ctx, "make", {"kind": "build-failed", "log": blog[-3000:]}, True)
         return C.finish(ctx)
+    # the translator's reading of the .S text against the objects the assembler made from it
+    try:
+        xdiffs = asm2lean.crosscheck(ctx.src)
+    except Exception as e:
+        xdiffs = ["cross-check failed: %s" % e]
+    ctx.coverage["stub_translation_vs_object_code"] = "equal for all 7 stubs" if not xdiffs else xdiffs
+    if xdiffs:
+        C.violation(ctx, "asm-crosscheck", {"kind": "translator-object-mismatch", "differences": xdiffs,
+                                            "theorem": "c01_*_stub (stated about Gen/Stubs.lean, which no longer matches the assembled code)"}, True)
     nprog = 3 if ctx.tier == "quick" else 40
     work = os.path.join(ctx.scratch, "e2e")
     os.makedirs(work)
